@@ -61,6 +61,99 @@ static J gen_motion_case(Chooser &ch)
   return c;
 }
 
+// Ridge-dependent cooling models under a longitude offset that puts the ridge in another 360-degree copy than the natural longitude
+// of the query: an oceanic plate (half space / plate model) and optionally a mass conserving slab, with one spreading velocity per
+// ridge point and an oblique ridge, i.e. everything that the closest-ridge-point search interpolates.
+static J gen_ridge_alias_case(Chooser &ch)
+{
+  g::Frame fr;
+  fr.sph = true; fr.R = 6371e3; fr.depth_method = ch.pick<std::string>({"starting point", "begin segment", "begin at end segment"});
+  J root = J::obj();
+  g::frame_to_json(fr, root);
+  const double lon0 = ch.lattice(-60, 60, 1), lat0 = ch.lattice(-30, 30, 1), w = ch.lattice(10, 30, 1), h = ch.lattice(10, 25, 1);
+  auto ridge = [&](int &n) {
+    n = static_cast<int>(ch.range(2, 4));
+    J r = J::arr();
+    const double x = lon0 + ch.lattice(-w, w, 0.5), slant = ch.lattice(-12, 12, 0.5);
+    for (int i = 0; i < n; ++i)
+      {
+        const double t = n == 1 ? 0 : -1 + 2.0 * i / (n - 1);
+        r.push(jp(x + t * slant + ch.lattice(-3, 3, 0.5), lat0 + t * (h + 3)));
+      }
+    return J::arr({r});
+  };
+  auto velocities = [&](int n) {
+    J vals = J::arr();
+    for (int i = 0; i < n; ++i) vals.push(J(ch.lattice(0.01, 0.12, 0.005)));
+    return J::arr({J::arr({J(0.0), J::arr({vals})})});
+  };
+  J feats = J::arr();
+  {
+    J f = J::obj();
+    f["model"] = "oceanic plate"; f["name"] = "plate";
+    f["coordinates"] = J::arr({jp(lon0 - w, lat0 - h), jp(lon0 + w, lat0 - h), jp(lon0 + w, lat0 + h), jp(lon0 - w, lat0 + h)});
+    f["max depth"] = 150e3;
+    J t = J::obj();
+    t["model"] = ch.pick<std::string>({"plate model", "half space model"});
+    t["max depth"] = 150e3;
+    int n = 2;
+    t["ridge coordinates"] = ridge(n);
+    t["spreading velocity"] = velocities(n);
+    f["temperature models"] = J::arr({t});
+    feats.push(f);
+  }
+  if (ch.chance(40))
+    {
+      J f = J::obj();
+      f["model"] = "subducting plate"; f["name"] = "slab";
+      f["coordinates"] = J::arr({jp(lon0 + w, lat0 - h + 2), jp(lon0 + w + ch.lattice(-2, 2, 0.5), lat0 + h - 2)});
+      f["dip point"] = jp(lon0 + w + 30, lat0);
+      J seg = J::obj();
+      seg["length"] = 400e3; seg["thickness"] = J::arr({J(100e3)}); seg["angle"] = J::arr({J(ch.lattice(20, 60, 5))});
+      f["segments"] = J::arr({seg});
+      J t = J::obj();
+      t["model"] = "mass conserving";
+      int n = 2;
+      t["ridge coordinates"] = ridge(n);
+      t["spreading velocity"] = velocities(n);
+      t["subducting velocity"] = ch.lattice(0.02, 0.1, 0.01);
+      t["coupling depth"] = 80e3; t["min distance slab top"] = -200e3; t["max distance slab top"] = 150e3;
+      t["reference model name"] = ch.pick<std::string>({"half space model", "plate model"});
+      f["temperature models"] = J::arr({t});
+      feats.push(f);
+    }
+  root["features"] = feats;
+  J c = J::obj();
+  c["world"] = root.dump();
+  c["sph"] = true; c["R"] = fr.R; c["H"] = fr.H; c["dm"] = fr.depth_method;
+  double lo = 1e9, hi = -1e9;
+  lon_range(root, lo, hi);
+  const double dmin = -360 - lo + 0.5, dmax = 360 - hi - 0.5;
+  double dlon;
+  switch (ch.range(0, 4))
+    {
+      case 0: dlon = 180 - lon0 + ch.lattice(-w, w, 0.5); break;
+      case 1: dlon = -180 - lon0 + ch.lattice(-w, w, 0.5); break;
+      case 2: dlon = ch.flip() ? 330.0 - lon0 : -330.0 - lon0; break;
+      case 3: dlon = ch.flip() ? 360.0 : -360.0; break;
+      default: dlon = ch.lattice(-300, 300, 1); break;
+    }
+  dlon = std::max(dmin, std::min(dmax, dlon));
+  J mo = J::obj();
+  mo["dlon"] = dlon;
+  c["motion"] = mo;
+  J qs = J::arr();
+  const int nq = static_cast<int>(ch.range(4, 10));
+  for (int i = 0; i < nq; ++i)
+    {
+      const bool slab = feats.size() > 1 && ch.chance(35);
+      const double lon = slab ? lon0 + w + ch.real(0, 5) : lon0 + ch.real(-w, w), lat = lat0 + ch.real(-h, h) * (slab ? 0.7 : 1.0);
+      qs.push(g::make_query(fr, lon, lat, slab ? ch.real(0, 350e3) : ch.real(0, 150e3)));
+    }
+  c["queries"] = qs;
+  return c;
+}
+
 static const PropList &cmp_list()
 {
   static const PropList l = {{{1, 0, 0}}, {{2, 0, 0}}, {{2, 1, 0}}, {{2, 2, 0}}, {{2, 3, 0}}, {{2, 4, 0}}, {{2, 5, 0}}, {{3, 0, 2}}, {{3, 1, 1}}};
@@ -187,5 +280,6 @@ int main(int argc, char **argv)
   return run_main("C08", argc, argv,
   {
     {"rigid_motion", "worlds with 1..4 features of every type (ridges, dip points, curved trenches, cross section, water content) x a rigid motion (cartesian: rotation about the vertical by any angle incl. 90/180/270 + translation up to 1e7 m; spherical: common longitude offset, 75% of them carrying a feature onto +-180 or a full turn, longitudes kept within [-360,360]) x 3..12 feature-aimed queries; temperature, compositions, grains and tag string compared (1e-6 / 1e-7 relative), boundary-robust. Non-trivial: point inside a feature and motion not the identity", 80, gen_motion_case, check_motion, 100, true, true},
+    {"ridge_longitude_alias", "spherical worlds whose temperature depends on the closest ridge point (oceanic plate with plate / half space model, 40% with a mass conserving slab) with an oblique 2..4-point ridge and one spreading velocity per ridge point x a longitude offset that carries plate and ridge onto +-180, to +-330, a full turn, or anywhere in [-300,300] x 4..10 queries inside plate / slab; same comparison as rigid_motion. Non-trivial: point inside a feature and offset not zero", 40, gen_ridge_alias_case, check_motion, 100, true, true},
   });
 }
